@@ -432,8 +432,11 @@ fn cmd_emit_crate(m: &BTreeMap<String, String>) {
     let out: PathBuf = get(m, "out", PathBuf::from("crate.rs"));
     let mut reqs: Vec<req::Request> = Vec::new();
     if with_pool {
+        // corpus always; of the directed seeds every `stride`-th one starting at `offset`
+        let stride: usize = get(m, "pool-stride", 1usize).max(1);
+        let offset: usize = get(m, "pool-offset", 0usize) % stride;
         reqs.extend(corpus.entries.iter().map(|e| e.req.clone()));
-        reqs.extend(dir.iter().cloned());
+        reqs.extend(dir.iter().enumerate().filter(|(i, _)| i % stride == offset).map(|(_, r)| r.clone()));
     }
     for i in from..from + n {
         reqs.push(gen::gen_input(root, i, &pool).0);
